@@ -92,6 +92,17 @@ pub struct MArchive {
     pub truncate: Option<usize>,
 }
 
+/// Under Miri the zstd FFI is unavailable: streams that would be zstd are left uncompressed.
+pub static NO_ZSTD: std::sync::atomic::AtomicBool = std::sync::atomic::AtomicBool::new(false);
+
+fn usable(c: u8) -> u8 {
+    if c == 0 || c > 4 || (c == R::C_ZSTD && NO_ZSTD.load(std::sync::atomic::Ordering::Relaxed)) {
+        1
+    } else {
+        c
+    }
+}
+
 fn compress_dir(d: &MDir, codec: u8, rng: &mut Rng) -> Vec<u8> {
     let mut plain = d.encode_plain();
     let c = d.codec_override.unwrap_or(codec);
@@ -100,7 +111,7 @@ fn compress_dir(d: &MDir, codec: u8, rng: &mut Rng) -> Vec<u8> {
         plain.truncate(plain.len() - k);
     }
     let p = CodecParams::plain();
-    let mut z = R::codec_compress(if c == 0 || c > 4 { 1 } else { c }, &plain, &p).unwrap_or(plain);
+    let mut z = R::codec_compress(usable(c), &plain, &p).unwrap_or(plain);
     if d.cut < 0 {
         let n = (-d.cut) as usize;
         z.extend(rng.bytes(n));
@@ -239,7 +250,7 @@ impl MArchive {
         }
         let root_b = compress_dir(&root, self.codec, rng);
         let mc = self.meta_codec_override.unwrap_or(self.codec);
-        let meta_b = R::codec_compress(if mc == 0 || mc > 4 { 1 } else { mc }, &self.meta_plain, &CodecParams::plain())
+        let meta_b = R::codec_compress(usable(mc), &self.meta_plain, &CodecParams::plain())
             .unwrap_or_else(|_| self.meta_plain.clone());
         let mut h = self.header;
         let mut file = vec![0u8; 127];
